@@ -679,7 +679,7 @@ impl<'ast, 'r, 'a> Visit<'ast> for Collector<'r, 'a> {
                 self.rw.log.push(format!("R30 let {name} = {m}.entry({k}).or_default() -> __entry_or_default; {name}.insert(..) -> __entry_insert"));
                 self.edits.push(Edit { range: rng(s), text: format!("__entry_or_default(&mut {m}, {k});"), prio: 0 });
             }
-            syn::Stmt::Local(l) if self.rw.on("R3") || self.rw.on("R16") || self.rw.on("R3f") || self.rw.on("R17") || self.rw.on("R26") || self.rw.on("R33") || self.rw.on("R3m") || self.rw.on("R44") => {
+            syn::Stmt::Local(l) if self.rw.on("R3") || self.rw.on("R16") || self.rw.on("R3f") || self.rw.on("R17") || self.rw.on("R26") || self.rw.on("R33") || self.rw.on("R3m") || self.rw.on("R44") || self.rw.on("R48") => {
                 if self.rw.on("R16") {
                     if let Some(t) = self.try_r16(l) {
                         self.edits.push(Edit { range: rng(s), text: t, prio: 0 });
@@ -694,6 +694,12 @@ impl<'ast, 'r, 'a> Visit<'ast> for Collector<'r, 'a> {
                 }
                 if self.rw.on("R26") {
                     if let Some(t) = self.try_r26(l) {
+                        self.edits.push(Edit { range: rng(s), text: t, prio: 0 });
+                        return;
+                    }
+                }
+                if self.rw.on("R48") {
+                    if let Some(t) = self.try_r48(l) {
                         self.edits.push(Edit { range: rng(s), text: t, prio: 0 });
                         return;
                     }
@@ -1417,6 +1423,70 @@ impl<'r, 'a> Collector<'r, 'a> {
         let vec_ty = ty.unwrap_or_else(|| "UstrMap<_>".to_string());
         self.rw.log.push(format!("R26 let {name} = M.iter()[.filter(..)].map(..).collect() into a UstrMap -> loop {key}"));
         Some(format!("let mut {name}: {vec_ty} = UstrMap::default(); for __e in {iter}__map_entries(&{m}) {hdr}{{ {bs}{guard}{{ let {pat} = __e; {name}.insert({k}, {v}); }} {be}}}"))
+    }
+
+    /// R48: `let x: Vec<T> = B.iter().ADAPTER*.collect();` where B is a roaring bitmap and every ADAPTER is
+    /// `filter(|p| C)`, `map(|p| E)` or `filter_map(|p| E)`
+    ///  -> `let mut x: Vec<T> = Vec::new(); let __bs_x = __rb_vec(&B); let ghost __bs_x_g = __bs_x@;
+    ///      for __p0 in __bs_x { adapters as nested `if` / `let` / `if let Some(..)`; x.push(last) }`
+    /// (an element runs through the adapters in order, as the lazy chain drives it; a bitmap iterates
+    /// its members in ascending order by value; `filter` sees a reference, `map` / `filter_map` the value)
+    fn try_r48(&mut self, l: &syn::Local) -> Option<String> {
+        let init = l.init.as_ref()?;
+        if init.diverge.is_some() {
+            return None;
+        }
+        let (name, ty) = self.local_name_ty(l)?;
+        let coll = is_method(&init.expr, "collect")?;
+        // walk the adapters back to `.iter()`
+        let mut adapters: Vec<&syn::ExprMethodCall> = vec![];
+        let mut cur: &syn::Expr = &coll.receiver;
+        let base = loop {
+            match cur {
+                syn::Expr::MethodCall(m) if (m.method == "filter" || m.method == "map" || m.method == "filter_map") && m.args.len() == 1 => {
+                    adapters.push(m);
+                    cur = &m.receiver;
+                }
+                syn::Expr::MethodCall(m) if m.method == "iter" && m.args.is_empty() => break &*m.receiver,
+                _ => return None,
+            }
+        };
+        adapters.reverse();
+        if adapters.is_empty() {
+            return None;
+        }
+        let vec_ty = ty.unwrap_or_else(|| "Vec<_>".to_string());
+        if !vec_ty.replace(' ', "").starts_with("Vec<") {
+            die("unsupported", &format!("{}: R48 side condition: declared type `{vec_ty}` is not Vec<_>", self.rw.fn_path));
+        }
+        let key = self.rw.next_key("R48");
+        let (iter, hdr, bs, be) = self.rw.loop_parts(&key);
+        let src = self.render(base);
+        let mut open = String::new();
+        let mut close = String::new();
+        let mut cur_var = "__p0".to_string();
+        for (n, a) in adapters.iter().enumerate() {
+            let cl = match &a.args[0] {
+                syn::Expr::Closure(c) if c.capture.is_none() && c.inputs.len() == 1 && !closure_has_control_flow(&c.body) => c,
+                _ => die("unsupported", &format!("{}: R48 side condition violated (adapter argument is not a plain one-parameter closure)", self.rw.fn_path)),
+            };
+            let pat = self.rw.text(&cl.inputs[0]).to_string();
+            let body = self.render(&cl.body);
+            let next = format!("__p{}", n + 1);
+            if a.method == "filter" {
+                open.push_str(&format!("if {{ let {pat} = &{cur_var}; {body} }} {{ "));
+                close.push_str(" }");
+            } else if a.method == "map" {
+                open.push_str(&format!("let {next} = {{ let {pat} = {cur_var}; {body} }}; "));
+                cur_var = next;
+            } else {
+                open.push_str(&format!("if let Some({next}) = {{ let {pat} = {cur_var}; {body} }} {{ "));
+                close.push_str(" }");
+                cur_var = next;
+            }
+        }
+        self.rw.log.push(format!("R48 let {name} = B.iter()..{} adapters...collect() -> loop {key} over __rb_vec", adapters.len()));
+        Some(format!("let mut {name}: {vec_ty} = Vec::new(); let __bs_{name} = __rb_vec(&{src}); let ghost __bs_{name}_g = __bs_{name}@; for __p0 in {iter}__bs_{name} {hdr}{{ {bs}{open}{name}.push({cur_var});{close} {be}}}"))
     }
 
     /// R44: `let x: BTreeMap<K, V> = SRC.iter().map(|PAT| (A, B)).collect();`  (SRC evaluates to a Vec)
